@@ -25,6 +25,7 @@ var c04CoreMoves = []string{"to-var", "to-optional", "to-array", "to-dict", "to-
 
 func init() {
 	floors := map[string]int64{
+		"optelem_programs": 30, "optelem_invalidated_as_expected": 20,
 		"exp:invalidated": 1000, "exp:value": 1000, "exp:absent": 40, "exp:mismatch": 40,
 		"judged_I": 3000, "judged_V": 3000, "judged_Vp": 3000,
 		"scenario:script": 800, "scenario:tx": 250, "scenario:storage-ref": 190,
@@ -254,6 +255,8 @@ func runC04(c *core.Ctx) {
 		hosts[eng] = h
 		return h
 	}
+	// containers with optional resource elements (c04_optelem.go)
+	c04OptElem(c)
 	for k := 0; k < c04PerCase; k++ {
 		var s *scen
 		fam := c.Rng.IntN(20)
